@@ -289,6 +289,19 @@ package api
 //@   ensures startedWatch == old(startedWatch) + 1
 //@   modifies startedWatch
 
+// ---- C13: what the catalog reader asks the channel manager to do ---------------------------------------------------
+// startedColls: ids of the collections StartReadCollection was called for; droppedColls: ids reported through
+// AddDroppedCollection (recorded as dropped: never started, their messages skipped)
+//@ ghost var startedColls set[int64]
+//@ ghost var droppedReports int
+//@ ghost var lastDroppedReport []int64
+//@ trusted func (ChannelManager).StartReadCollection
+//@   params recv ctx db info seekPositions channelStartTsMap
+//@   ensures startedColls == setAdd(old(startedColls), info.ID)
+//@ trusted func (ChannelManager).AddDroppedCollection
+//@   params recv ids
+//@   ensures droppedReports == old(droppedReports) + 1 && lastDroppedReport == ids
+
 // ---- C01: a pack travels in an envelope that names its stream --------------------------------------------------
 //@ func GetReplicateMsg
 //@   props C01 C02
